@@ -14,6 +14,9 @@ void just_sink(int ev, long a, long b, long c, long d) {
     if (!g_jtr || (ev != 6 && ev != 7)) return;
     fprintf(g_jtr, "{\"e\":\"%s\",\"le\":%ld,\"rev\":%ld,\"reach\":%ld,\"linked\":%ld,\"n\":%ld,\"allbase\":%d}\n", ev == 6 ? "Markers" : "Unmarked", a & 1, (a >> 1) & 1, b, c, d, g_allbase);
 }
+// advance callback of an application-hinted font: depends on the glyph id only
+float hinted_adv(const void *, gr_uint16 gid) { return 2.0f + float(gid % 47) * 0.5f; }
+const gr_font_ops hinted_font_ops = { sizeof(gr_font_ops), hinted_adv, 0 };
 struct Line { std::vector<int> ids; };
 std::string arr2(const std::vector<std::vector<int>> &v) {
     std::string r = "[";
@@ -41,7 +44,7 @@ GRV_CMD(segapi) {
         if (!faces.count(font)) faces[font] = gr_make_file_face(font.c_str(), 0);
         gr_face *face = faces[font];
         if (!face) { fprintf(stderr, "cannot load %s\n", font.c_str()); return 2; }
-        gr_font *gf = ppm > 0 ? gr_make_font(float(ppm), face) : 0;
+        gr_font *gf = ppm > 0 ? (src->get("hinted", 0) ? gr_make_font_with_ops(float(ppm), &hinted_font_ops, &hinted_font_ops, face) : gr_make_font(float(ppm), face)) : 0;
         const gr_faceinfo *fi = gr_face_info(face, 0);
         const bool nojust = !(fi && fi->justifies);
         const size_t nch = gr_count_unicode_characters(gr_utf8, text.data(), text.data() + text.size(), 0);
